@@ -125,6 +125,25 @@ class PathRun:
         self.solver.pop()
         return r != z3.unsat
 
+    def concretize(self, t):
+        """if the path condition forces the integer term t to a single value, return it as IntVal (else the term)"""
+        ts = sym.simp(t)
+        if z3.is_int_value(ts):
+            return ts
+        self.solver.push()
+        try:
+            if self.solver.check() != z3.sat:
+                return ts
+            v = self.solver.model().eval(ts, model_completion=True)
+            if not z3.is_int_value(v):
+                return ts
+            self.solver.add(ts != v)
+            if self.solver.check() == z3.unsat:
+                return v
+            return ts
+        finally:
+            self.solver.pop()
+
     def decide(self, cond, label=''):
         """branch on a z3 Bool; returns python bool"""
         c = sym.simp(cond)
